@@ -18,98 +18,31 @@ from ..program import rel, AnalysisError
 from ..poly import P, P_div
 
 FN = "functions.ssi.build_hank"
-STACKS = {"numpy.vstack", "numpy.hstack", "numpy.array", "numpy.concatenate", "numpy.row_stack", "numpy.asarray"}
 
 
-class Und(Exception):
-    pass
+def _first(v):
+    from .. import seqdom
+    return v.items[0] if isinstance(v, seqdom.Tup) and v.items else v
 
 
-def parse_blockstack(prog, pf, se, expr, posname):
-    """np.vstack([factor * X[:, lo:hi] for v in range(..)]) -> dict(array, lo, hi, factor, count, kind) with v = start + step*pos"""
-    x = astq.expand(pf, expr)
-    if not (isinstance(x, ast.Call) and astq.callee_name(prog, pf, x) in STACKS and x.args and isinstance(x.args[0], (ast.ListComp, ast.GeneratorExp))):
-        raise Und(f"`{astq.src(expr)}` is not a stack of a comprehension")
-    comp = x.args[0]
-    if len(comp.generators) != 1 or comp.generators[0].ifs or not isinstance(comp.generators[0].target, ast.Name):
-        raise Und("comprehension with several generators / filters")
-    g = comp.generators[0]
-    rc = symidx.is_range(prog, pf, g.iter)
-    if rc is None:
-        raise Und(f"iteration `{astq.src(g.iter)}` is not a range")
-    ra = symidx.range_args(se, rc)
-    if ra is None:
-        raise Und("range bounds not polynomial")
-    start, stop, step = ra
-    if not step.is_const() or step.const() not in (1, -1):
-        raise Und("range step is not +-1")
-    count = (stop - start) * step  # step = +-1
-    var = g.target.id
-    pos = P.s(posname)
-    saved = se.env.get(var)
-    se.env[var] = start + step * pos
-    try:
-        elt = comp.elt
-        factor = P.c(1)
-        sub = elt
-        if isinstance(elt, ast.BinOp) and isinstance(elt.op, ast.Mult):
-            for a, b in ((elt.left, elt.right), (elt.right, elt.left)):
-                if isinstance(astq.expand(pf, b, stop={var}), ast.Subscript):
-                    factor, sub = se.ev(a), b
-                    break
-        elif isinstance(elt, ast.BinOp) and isinstance(elt.op, ast.Div):
-            d = se.ev(elt.right)
-            factor = P_div(P.c(1), d) if d is not None else None
-            sub = elt.left
-        subx = astq.expand(pf, sub, stop={var})
-        if not (isinstance(subx, ast.Subscript) and isinstance(subx.value, ast.Name)):
-            raise Und(f"block `{astq.src(elt)}` is not a scaled window of an array")
-        el = astq.index_elts(subx)
-        if len(el) != 2 or not astq.is_full_slice(el[0]) or not isinstance(el[1], ast.Slice):
-            raise Und(f"window `{astq.src(subx)}` is not of the form X[:, lo:hi]")
-        b = symidx.slice_bounds(se, el[1], extent=P.s(f"{subx.value.id}.shape[1]"))
-        if b is None or factor is None:
-            raise Und(f"window bounds / factor of `{astq.src(elt)}` not polynomial")
-        return {"array": subx.value.id, "lo": b[0], "hi": b[1], "factor": factor, "count": count, "kind": astq.callee_name(prog, pf, x),
-                "node": x, "start": start, "step": step}
-    finally:
-        if saved is None:
-            se.env.pop(var, None)
-        else:
-            se.env[var] = saved
-
-
-def ret_first(pf):
-    rets = pf.returns()
-    if not rets:
-        raise Und("no return on the path")
-    v = rets[-1].value
-    first = v.elts[0] if isinstance(v, ast.Tuple) and v.elts else v
-    return astq.at(pf.stmts, rets[-1], first), rets[-1]
-
-
-def is_T(e):
-    return isinstance(e, ast.Attribute) and e.attr == "T"
-
-
-def product_operands(prog, pf, e):
-    """A @ B.T / np.dot(A, B.T) -> (A, B) ; raises Und otherwise"""
-    x = astq.expand(pf, e)
-    if isinstance(x, ast.BinOp) and isinstance(x.op, ast.MatMult):
-        l, r = x.left, x.right
-    elif isinstance(x, ast.Call) and astq.callee_name(prog, pf, x) in ("numpy.dot", "numpy.matmul") and len(x.args) == 2:
-        l, r = x.args
-    else:
-        raise Und(f"`{astq.src(e)}` is not a matrix product")
-    if not is_T(r):
-        raise Und(f"second factor `{astq.src(r, 50)}` is not transposed")
-    return l, r.value
+def analyse(prog, fi, method, pY, pR, pbr, pm):
+    """the returned Hankel / Toeplitz matrix as a term of sa/hankdom.py, for one method, uncertainty off"""
+    from .. import hankdom, seqdom
+    it = hankdom.Interp(prog, roles={pY: ("rec", "all"), pR: ("rec", "ref")})
+    rets = it.run(fi, {pm: seqdom.K(method), "calc_unc": seqdom.K(False), pbr: seqdom.I(P.s(pbr))})
+    out = []
+    for v, n in rets:
+        h = _first(v)
+        if not any(repr(h) == repr(x[0]) for x in out):
+            out.append((h, n))
+    return out, it
 
 
 def check(prog, run):
+    from .. import hankdom
     run.rule("R-lag", "cov_mm/dat: lag(i, c) = origin_future(i) - origin_past(c) = i + c + 1, equal window lengths and weights, windows inside "
-             "the record, future windows of ALL channels, past windows of the REFERENCE channels; cov_R: R_k has lag k, equal lengths, weight "
-             "1/length, Toeplitz block (i, c) holds k = br + i - c within the lags computed", 20)
+             "the record, future windows of ALL channels, past windows of the REFERENCE channels; cov_R: block (i, c) correlates Y[:, :Ndat-k] with "
+             "Yref[:, k:] at k = br + i - c (equal lengths, weight 1/length, windows inside the record, lag computed)", 20)
     run.rule("R-blocks", "br+1 block rows and br+1 block columns in every method", 6)
     run.rule("R-dat", "dat: stack [past; future], R-factor of its transpose, returned block rows >= rows(past), columns < rows(past)", 4)
     run.rule("O-bilinear", "H is bilinear in (Y, Yref) for cov_mm and cov_R", 2)
@@ -118,213 +51,153 @@ def check(prog, run):
     pos, _, _, _ = astq.params_of(fi.node)
     pY, pR, pbr, pm = pos[0], pos[1], pos[2], pos[3]
     br = P.s(pbr)
-    Ndat = P.s(f"{pY}.shape[1]")
+    Ndat = P.s("Ndat")
+    names = {"all": pY, "ref": pR}
 
     def ob(rule, role, ok, detail, witness="", node=None, config=""):
         run.ob(rule, fi.qual, role, ok, detail, witness=witness or detail[:80], file=f, node=node, config=config)
+
+    def nonneg(p_):
+        """p >= 0 for every br >= 0 (and Ndat large): constant >= 0, or only non-negative coefficients on br"""
+        return all(c >= 0 for c in p_.t.values()) and all(set(s_ for s_, e in k) <= {pbr} for k in p_.t)
+
+    def stack_facts(stk, idx):
+        w = stk.win.subs(stk.v, P.s(idx))
+        return {"array": names.get(w.role, w.role), "lo": w.lo, "hi": w.hi, "factor": w.w, "count": stk.n}
 
     # ------------------------------------------------------------ cov_mm and dat
     results = {}
     for method in ("cov_mm", "dat"):
         cfg = f"method={method}"
-        try:
-            pf = astq.PathFn(fi, {pm: method, "calc_unc": False})
-            se = symidx.SymEval(prog, pf)
-            H, rnode = ret_first(pf)
-            if method == "cov_mm":
-                A, B = product_operands(prog, pf, H)
-                fut = parse_blockstack(prog, pf, se, A, "i")
-                past = parse_blockstack(prog, pf, se, B, "c")
+        hs, it = analyse(prog, fi, method, pY, pR, pbr, pm)
+        if len(hs) != 1:
+            ob("R-lag", "structure", None, f"{cfg}: {len(hs)} different returned matrices", config=cfg)
+            continue
+        H, rnode = hs[0]
+        fut = past = None
+        if method == "cov_mm":
+            if isinstance(H, hankdom.Gram) and isinstance(H.a, hankdom.Stk) and isinstance(H.b, hankdom.Stk):
+                fut, past = stack_facts(H.a, "i"), stack_facts(H.b, "c")
             else:
-                fut, past, extra = dat_structure(prog, pf, se, H, run, fi, f, cfg, pR, br)
-            results[method] = (fut, past)
-            # which records
-            ob("R-lag", "block rows are windows of all channels (first argument)", fut["array"] == pY, f"future windows taken from `{fut['array']}`", fut["array"], fut["node"], cfg)
-            ob("R-lag", "block columns are windows of the reference channels (second argument)", past["array"] == pR, f"past windows taken from `{past['array']}`", past["array"], past["node"], cfg)
-            lag = fut["lo"] - past["lo"]
-            exp = P.s("i") + P.s("c") + 1
-            ob("R-lag", "single lag i+c+1", lag == exp, f"lag(i,c) = {lag!r}", repr(lag), fut["node"], cfg)
-            lf, lp = fut["hi"] - fut["lo"], past["hi"] - past["lo"]
-            ob("R-lag", "equal window lengths (one lag per block, uniform weights)", lf == lp and "i" not in repr(lf) and "c" not in repr(lp),
-               f"future length {lf!r}, past length {lp!r}", f"{lf!r} vs {lp!r}", fut["node"], cfg)
-            ob("R-lag", "equal weights on both factors", fut["factor"] == past["factor"], f"factors {fut['factor']!r} and {past['factor']!r}",
-               f"{fut['factor']!r} vs {past['factor']!r}", fut["node"], cfg)
-            # weight * weight * length = 1 up to the -1 end effect: factor^2 * (length+1) == 1  (1/N with N-1 products is what the code uses; accept N or N-1)
-            w2 = fut["factor"] * past["factor"]
-            from ..poly import atom_of
-            nb = atom_of(w2, -1)
-            okw = any((w2 * (lf + d)) == P.c(1) for d in (0, 1)) or (nb is not None and any(nb == lf + d for d in (0, 1)))
-            ob("R-lag", "weights average the products (1/N per product)", okw, f"weight product {w2!r} for {lf!r} products", repr(w2), fut["node"], cfg)
-            ob("R-blocks", "block rows = br+1", fut["count"] == br + 1, f"{fut['count']!r} block rows", repr(fut["count"]), fut["node"], cfg)
-            ob("R-blocks", "block columns = br+1", past["count"] == br + 1, f"{past['count']!r} block columns", repr(past["count"]), past["node"], cfg)
-            # bounds: largest end <= Ndat ; smallest origin >= 0
-            maxhi = fut["hi"].subs("i", fut["count"] - 1)
-            minlo = past["lo"].subs("c", past["count"] - 1)
-            d = Ndat - maxhi
-            ob("R-lag", "future windows end inside the record", d.is_const() and d.const() >= 0, f"largest end {maxhi!r} vs record length {Ndat!r}", repr(maxhi), fut["node"], cfg)
-            ob("R-lag", "past windows start inside the record", minlo.is_const() and minlo.const() >= 0, f"smallest origin {minlo!r}", repr(minlo), past["node"], cfg)
-            minlo_f = fut["lo"].subs("i", P.c(0))
-            ob("R-lag", "origins depend on the block index only through +i / -c", fut["lo"] - P.s("i") == minlo_f and past["lo"] + P.s("c") == past["lo"].subs("c", P.c(0)),
-               f"future origin {fut['lo']!r}, past origin {past['lo']!r}", f"{fut['lo']!r};{past['lo']!r}", fut["node"], cfg)
-        except Und as e:
-            ob("R-lag", "structure", None, f"{cfg}: {e}", config=cfg)
+                ob("R-lag", "structure", None, f"{cfg}: returned matrix `{repr(H)[:120]}` is not a product of two window stacks", node=rnode, config=cfg)
+                continue
+        else:
+            def obd(role, ok, detail, witness=""):
+                run.ob("R-dat", fi.qual, role, ok, detail, witness=witness or detail[:80], file=f, node=rnode, config=cfg)
+            cut = H if isinstance(H, hankdom.Cut) else None
+            rf = cut.m if cut is not None else None
+            if not (cut is not None and isinstance(rf, hankdom.RFac)):
+                obd("returned block of an R factor", None, f"returned matrix `{repr(H)[:120]}` is not a block of an R factor")
+                continue
+            obd("R-factor only (mode='r'), transposed to lower-triangular", rf.mode == "r" and rf.transposed, f"qr(..., mode={rf.mode!r}), transposed afterwards: {rf.transposed}")
+            arg = rf.arg
+            if not (isinstance(arg, hankdom.Cat) and arg.transposed and len(arg.parts) == 2 and all(isinstance(x, hankdom.Stk) for x in arg.parts)):
+                obd("QR of the transposed stack [past; future]", None if not isinstance(arg, (hankdom.Cat, hankdom.Stk)) else False, f"QR argument `{repr(arg)[:120]}`")
+                continue
+            s1, s2 = arg.parts
+            f1, f2 = stack_facts(s1, "c"), stack_facts(s2, "i")
+            obd("stack order [past(reference); future(all)]", f1["array"] == pR and f2["array"] != pR, f"first block from `{f1['array']}`, second from `{f2['array']}`", f"{f1['array']},{f2['array']}")
+            rows_past = s1.n * P.s("nR")
+            ok = cut.rlo is not None and cut.chi is not None and cut.rlo == rows_past and cut.chi == rows_past and cut.rhi is None and cut.clo is None
+            obd("returned block: rows >= rows(past), columns < rows(past)", ok, f"rows from {cut.rlo!r}, columns up to {cut.chi!r}, rows(past) = {rows_past!r}", f"{cut.rlo!r};{cut.chi!r}")
+            fut, past = f2, f1
+        results[method] = (fut, past)
+        node = rnode
+        ob("R-lag", "block rows are windows of all channels (first argument)", fut["array"] == pY, f"future windows taken from `{fut['array']}`", fut["array"], node, cfg)
+        ob("R-lag", "block columns are windows of the reference channels (second argument)", past["array"] == pR, f"past windows taken from `{past['array']}`", past["array"], node, cfg)
+        lag = fut["lo"] - past["lo"]
+        exp = P.s("i") + P.s("c") + 1
+        ob("R-lag", "single lag i+c+1", lag == exp, f"lag(i,c) = {lag!r}", repr(lag), node, cfg)
+        lf, lp = fut["hi"] - fut["lo"], past["hi"] - past["lo"]
+        ob("R-lag", "equal window lengths (one lag per block, uniform weights)", lf == lp and "i" not in repr(lf) and "c" not in repr(lp),
+           f"future length {lf!r}, past length {lp!r}", f"{lf!r} vs {lp!r}", node, cfg)
+        ob("R-lag", "equal weights on both factors", fut["factor"] == past["factor"], f"factors {fut['factor']!r} and {past['factor']!r}",
+           f"{fut['factor']!r} vs {past['factor']!r}", node, cfg)
+        w2 = fut["factor"] * past["factor"]
+        from ..poly import atom_of
+        nbv = atom_of(w2, -1)
+        okw = any((w2 * (lf + d)) == P.c(1) for d in (0, 1)) or (nbv is not None and any(nbv == lf + d for d in (0, 1)))
+        ob("R-lag", "weights average the products (1/N per product)", okw, f"weight product {w2!r} for {lf!r} products", repr(w2), node, cfg)
+        ob("R-blocks", "block rows = br+1", fut["count"] == br + 1, f"{fut['count']!r} block rows", repr(fut["count"]), node, cfg)
+        ob("R-blocks", "block columns = br+1", past["count"] == br + 1, f"{past['count']!r} block columns", repr(past["count"]), node, cfg)
+        maxhi = fut["hi"].subs("i", fut["count"] - 1)
+        minlo = past["lo"].subs("c", past["count"] - 1)
+        d = Ndat - maxhi
+        ob("R-lag", "future windows end inside the record", d.is_const() and d.const() >= 0, f"largest end {maxhi!r} vs record length {Ndat!r}", repr(maxhi), node, cfg)
+        ob("R-lag", "past windows start inside the record", minlo.is_const() and minlo.const() >= 0, f"smallest origin {minlo!r}", repr(minlo), node, cfg)
+        minlo_f = fut["lo"].subs("i", P.c(0))
+        ob("R-lag", "origins depend on the block index only through +i / -c", fut["lo"] - P.s("i") == minlo_f and past["lo"] + P.s("c") == past["lo"].subs("c", P.c(0)),
+           f"future origin {fut['lo']!r}, past origin {past['lo']!r}", f"{fut['lo']!r};{past['lo']!r}", node, cfg)
     if "cov_mm" in results and "dat" in results:
-        a, b = results["cov_mm"], results["dat"]
-        same = all(a[k][x] == b[k][x] for k in (0, 1) for x in ("lo", "hi", "factor", "count", "array"))
+        a_, b_ = results["cov_mm"], results["dat"]
+        same = all(a_[k][x] == b_[k][x] for k in (0, 1) for x in ("lo", "hi", "factor", "count", "array"))
         ob("R-dat", "future/past stacks identical to the cov_mm ones (sibling agreement)", same, "same origins, lengths, weights, counts" if same else "dat and cov_mm build different stacks",
            "differs", config="method=dat")
     # ------------------------------------------------------------ cov_R
     cfg = "method=cov_R"
-    try:
-        pf = astq.PathFn(fi, {pm: "cov_R", "calc_unc": False})
-        se = symidx.SymEval(prog, pf)
-        H, rnode = ret_first(pf)
-        cov_r(prog, pf, se, H, ob, cfg, pY, pR, br, Ndat)
-    except Und as e:
-        ob("R-lag", "structure", None, f"{cfg}: {e}", config=cfg)
+    hs, it = analyse(prog, fi, "cov_R", pY, pR, pbr, pm)
+    H, rnode = hs[0] if len(hs) == 1 else (None, None)
+    if not (isinstance(H, hankdom.BlockMat) and isinstance(H.row, hankdom.BlockRow) and isinstance(H.row.blk, hankdom.Corr)):
+        ob("R-lag", "structure", None, f"{cfg}: returned matrix `{repr(H)[:140]}` is not a block matrix of correlations", node=rnode, config=cfg)
+    else:
+        blk = H.row.blk.subs(H.v, P.s("i")).subs(H.row.v, P.s("c"))
+        rcount, ccount = H.n, H.row.n.subs(H.v, P.s("i")) if hasattr(H.row.n, "subs") else H.row.n
+        wa, wb = blk.wa, blk.wb
+        ob("R-lag", "R_k: first factor from all channels, second from the reference channels", wa.role == "all" and wb.role == "ref",
+           f"block = {names.get(wa.role)}[..] . {names.get(wb.role)}[..]^T", f"{wa.role},{wb.role}", rnode, cfg)
+        lag = wb.lo - wa.lo
+        exp = br + P.s("i") - P.s("c")
+        ob("R-lag", "Toeplitz block (i, c) holds lag br+i-c (reference record shifted forward)", lag == exp, f"lag(i,c) = {lag!r}", repr(lag), rnode, cfg)
+        la, lb = wa.hi - wa.lo, wb.hi - wb.lo
+        ob("R-lag", "R_k: equal window lengths", la == lb, f"lengths {la!r} and {lb!r}", f"{la!r} vs {lb!r}", rnode, cfg)
+        from ..poly import atom_of
+        wt = blk.w * wa.w * wb.w
+        okw = (wt * la) == P.c(1) or (atom_of(wt, -1) is not None and atom_of(wt, -1) == la)
+        ob("R-lag", "R_k: weight = 1/number of products (uniform mean)", okw, f"weight {wt!r} for {la!r} products", repr(wt), rnode, cfg)
+        ob("R-blocks", "block rows = br+1", rcount == br + 1, f"{rcount!r} block rows", repr(rcount), rnode, cfg)
+        ob("R-blocks", "block columns = br+1", ccount == br + 1, f"{ccount!r} block columns", repr(ccount), rnode, cfg)
+        # windows inside the record at the extreme blocks
+        lo_min = [wa.lo.subs("i", P.c(0)).subs("c", ccount - 1), wb.lo.subs("i", P.c(0)).subs("c", ccount - 1),
+                  wa.lo.subs("i", rcount - 1).subs("c", P.c(0)), wb.lo.subs("i", rcount - 1).subs("c", P.c(0))]
+        ob("R-lag", "smallest lag used is >= 0 (windows start inside the record)", all(nonneg(x) for x in lo_min), f"window origins at the corner blocks {[repr(x) for x in lo_min]}",
+           repr(lo_min), rnode, cfg)
+        hi_max = [Ndat - wa.hi.subs("i", P.c(0)).subs("c", ccount - 1), Ndat - wb.hi.subs("i", rcount - 1).subs("c", P.c(0)),
+                  Ndat - wa.hi.subs("i", rcount - 1).subs("c", P.c(0)), Ndat - wb.hi.subs("i", P.c(0)).subs("c", ccount - 1)]
+        ob("R-lag", "windows end inside the record", all(nonneg(x) for x in hi_max), f"record length minus window ends at the corner blocks {[repr(x) for x in hi_max]}",
+           repr(hi_max), rnode, cfg)
+        # every lag fetched from the lag array has been computed
+        log = it.sh.get("index_log", [])
+        if not log:
+            ob("R-lag", "largest lag used is computed", True, "lags are computed where they are used (no separate lag array)", node=rnode, config=cfg)
+        for idxp, length, loops in log:
+            # the index is affine in the loop variables: extremes at the loop bounds
+            vals = [idxp]
+            for kind, v, lo_, hi_ in loops:
+                if kind != "for":
+                    continue
+                nv = []
+                for x in vals:
+                    nv += [seqdom_psubs(x, v, lo_), seqdom_psubs(x, v, hi_ - 1)]
+                vals = nv
+            okhi = all(nonneg(length - 1 - x) for x in vals)
+            oklo = all(nonneg(x) for x in vals)
+            ob("R-lag", "largest lag used is computed", okhi and oklo, f"lag index {idxp!r} over its loops takes {sorted({repr(x) for x in vals})}, lags computed: {length!r}",
+               f"{idxp!r}/{length!r}", rnode, cfg)
     # ------------------------------------------------------------ bilinearity
     I = Interp(prog)
     fn = I.fn(FN)
     for m in ("cov_mm", "cov_R"):
         CTX.events.clear()
         r = I.call(fn, [D(2, gy=1), D(2, gr=1), Cst(10), Cst(m)])
-        H = r.items[0] if isinstance(r, Tup) and r.items else r
-        expect(run, prog, "O-bilinear", fn.qual, "H", H, dict(gy=1, gr=1), f"method={m}", allow_any=False)
+        Hh = r.items[0] if isinstance(r, Tup) and r.items else r
+        expect(run, prog, "O-bilinear", fn.qual, "H", Hh, dict(gy=1, gr=1), f"method={m}", allow_any=False)
         events_to_obligations(run, prog, "O-bilinear", f"method={m}")
     run.trusted |= set(CTX.used)
 
 
-def dat_structure(prog, pf, se, H, run, fi, f, cfg, pR, br):
-    """H = R[lo:, :hi] with R = qr(Ys.T, mode='r').T, Ys = vstack((past, future))"""
-    def ob(role, ok, detail, witness="", node=None):
-        run.ob("R-dat", fi.qual, role, ok, detail, witness=witness or detail[:80], file=f, node=node, config=cfg)
-    x = astq.expand(pf, H)
-    if not isinstance(x, ast.Subscript):
-        raise Und("returned matrix is not a block of an R factor")
-    el = astq.index_elts(x)
-    base = x.value
-    transposed = False
-    if is_T(base):
-        transposed, base = True, base.value
-    if not (isinstance(base, ast.Call) and astq.callee_name(prog, pf, base) in ("numpy.linalg.qr", "scipy.linalg.qr")):
-        raise Und(f"`{astq.src(base, 60)}` is not a QR factorisation")
-    mode = astq.kwarg(base, "mode")
-    ob("R-factor only (mode='r'), transposed to lower-triangular", isinstance(mode, ast.Constant) and mode.value == "r" and transposed,
-       f"qr(..., mode={astq.src(mode) if mode is not None else None}), transposed afterwards: {transposed}", node=base)
-    arg = base.args[0]
-    if not is_T(arg):
-        raise Und("QR argument is not the transposed stack")
-    st = astq.expand(pf, arg.value)
-    if not (isinstance(st, ast.Call) and astq.callee_name(prog, pf, st) == "numpy.vstack" and st.args and isinstance(st.args[0], (ast.Tuple, ast.List)) and len(st.args[0].elts) == 2):
-        raise Und("stack is not vstack((past, future))")
-    first, second = st.args[0].elts
-    s1 = parse_blockstack(prog, pf, se, first, "c")
-    s2 = parse_blockstack(prog, pf, se, second, "i")
-    ob("stack order [past(reference); future(all)]", s1["array"] == pR and s2["array"] != pR, f"first block from `{s1['array']}`, second from `{s2['array']}`",
-       f"{s1['array']},{s2['array']}", node=st)
-    rows_past = s1["count"] * P.s(f"{pR}.shape[0]")
-    if len(el) != 2 or not all(isinstance(e, ast.Slice) for e in el):
-        raise Und("returned block is not a two-dimensional slice")
-    rlo = se.ev(el[0].lower) if el[0].lower is not None else P.c(0)
-    chi = se.ev(el[1].upper) if el[1].upper is not None else None
-    ok = rlo is not None and chi is not None and rlo == rows_past and chi == rows_past and el[0].upper is None and el[1].lower is None
-    ob("returned block: rows >= rows(past), columns < rows(past)", ok, f"rows from {rlo!r}, columns up to {chi!r}, rows(past) = {rows_past!r}", f"{rlo!r};{chi!r}", node=x)
-    return s2, s1, None
-
-
-def cov_r(prog, pf, se, H, ob, cfg, pY, pR, br, Ndat):
-    # H = vstack([hstack([Ri[k] for k in range(hi, lo, -1)]) for l in range(q)])
-    x = astq.expand(pf, H)
-    if not (isinstance(x, ast.Call) and astq.callee_name(prog, pf, x) == "numpy.vstack" and x.args and isinstance(x.args[0], (ast.ListComp, ast.GeneratorExp))):
-        raise Und("Toeplitz matrix is not a vstack of a comprehension")
-    outer = x.args[0]
-    g_out = outer.generators[0]
-    rc = symidx.is_range(prog, pf, g_out.iter)
-    ra = symidx.range_args(se, rc) if rc is not None else None
-    if ra is None or not isinstance(g_out.target, ast.Name):
-        raise Und("outer range not recognised")
-    rcount = (ra[1] - ra[0]) * ra[2]
-    rowvar = g_out.target.id
-    inner = outer.elt
-    if not (isinstance(inner, ast.Call) and astq.callee_name(prog, pf, inner) == "numpy.hstack" and inner.args and isinstance(inner.args[0], (ast.ListComp, ast.GeneratorExp))):
-        raise Und("block row is not an hstack of a comprehension")
-    icomp = inner.args[0]
-    g_in = icomp.generators[0]
-    se.env[rowvar] = ra[0] + ra[2] * P.s("i")
-    rc2 = symidx.is_range(prog, pf, g_in.iter)
-    ra2 = symidx.range_args(se, rc2) if rc2 is not None else None
-    if ra2 is None or not isinstance(g_in.target, ast.Name):
-        raise Und("inner range not recognised")
-    if not ra2[2].is_const() or ra2[2].const() not in (1, -1):
-        raise Und("inner range step is not +-1")
-    ccount = (ra2[1] - ra2[0]) * ra2[2]
-    kexpr = ra2[0] + ra2[2] * P.s("c")
-    # the element must be Ri[k] of the lag array
-    elt = icomp.elt
-    if not isinstance(elt, ast.Subscript):
-        raise Und("Toeplitz block is not an element of the lag array")
-    e0 = astq.index_elts(elt)[0]
-    if not (isinstance(e0, ast.Name) and e0.id == g_in.target.id):
-        raise Und("lag array not indexed with the inner loop variable")
-    exp = br + P.s("i") - P.s("c")
-    ob("R-lag", "Toeplitz block (i, c) holds lag br+i-c", kexpr == exp, f"k(i,c) = {kexpr!r}", repr(kexpr), elt, cfg)
-    ob("R-blocks", "block rows = br+1", rcount == br + 1, f"{rcount!r} block rows", repr(rcount), x, cfg)
-    ob("R-blocks", "block columns = br+1", ccount == br + 1, f"{ccount!r} block columns", repr(ccount), inner, cfg)
-    # the lag array
-    lagarr = elt.value
-    if not (isinstance(lagarr, ast.Call) and astq.callee_name(prog, pf, lagarr) in STACKS and lagarr.args and isinstance(lagarr.args[0], (ast.ListComp, ast.GeneratorExp))):
-        raise Und("lag array is not built by a comprehension")
-    lc = lagarr.args[0]
-    g = lc.generators[0]
-    rc3 = symidx.is_range(prog, pf, g.iter)
-    ra3 = symidx.range_args(se, rc3) if rc3 is not None else None
-    if ra3 is None or not isinstance(g.target, ast.Name):
-        raise Und("lag range not recognised")
-    nlags = (ra3[1] - ra3[0]) * ra3[2]
-    kv = g.target.id
-    k = P.s("k")
-    se.env[kv] = ra3[0] + ra3[2] * k
-    body = lc.elt
-    weight = P.c(1)
-    prod = body
-    if isinstance(body, ast.BinOp) and isinstance(body.op, ast.Mult):
-        for a, b in ((body.left, body.right), (body.right, body.left)):
-            if isinstance(b, (ast.Call, ast.BinOp)) and not isinstance(a, ast.Call):
-                w = se.ev(a)
-                if w is not None:
-                    weight, prod = w, b
-                    break
-    elif isinstance(body, ast.BinOp) and isinstance(body.op, ast.Div):
-        d = se.ev(body.right)
-        weight = P_div(P.c(1), d) if d is not None else None
-        prod = body.left
-    A, B = product_operands(prog, pf, prod)
-    def window(e):
-        if not (isinstance(e, ast.Subscript) and isinstance(e.value, ast.Name)):
-            raise Und(f"`{astq.src(e)}` is not a window of a record")
-        el = astq.index_elts(e)
-        if len(el) != 2 or not astq.is_full_slice(el[0]):
-            raise Und(f"`{astq.src(e)}` is not of the form X[:, lo:hi]")
-        b = symidx.slice_bounds(se, el[1], extent=Ndat)
-        if b is None:
-            raise Und("window bounds not polynomial")
-        return e.value.id, b[0], b[1]
-    an, alo, ahi = window(A)
-    bn, blo, bhi = window(B)
-    ob("R-lag", "R_k: first factor from all channels, second from the reference channels", an == pY and bn == pR, f"R_k = {an}[..] . {bn}[..]^T", f"{an},{bn}", lc, cfg)
-    lag = blo - alo
-    ob("R-lag", "R_k has lag k (reference record shifted forward)", lag == k, f"lag = {lag!r}", repr(lag), lc, cfg)
-    la, lb = ahi - alo, bhi - blo
-    ob("R-lag", "R_k: equal window lengths", la == lb, f"lengths {la!r} and {lb!r}", f"{la!r} vs {lb!r}", lc, cfg)
-    from ..poly import atom_of
-    okw = weight is not None and ((weight * la) == P.c(1) or (atom_of(weight, -1) is not None and atom_of(weight, -1) == la))
-    ob("R-lag", "R_k: weight = 1/number of products (uniform mean)", okw, f"weight {weight!r} for {la!r} products", repr(weight), lc, cfg)
-    ob("R-lag", "lags start at 0", ra3[0] == P.c(0) and ra3[2] == P.c(1), f"k runs from {ra3[0]!r} step {ra3[2]!r}", repr(ra3[0]), lc, cfg)
-    kmax = kexpr.subs("i", rcount - 1).subs("c", P.c(0))
-    kmin = kexpr.subs("i", P.c(0)).subs("c", ccount - 1)
-    d = nlags - 1 - kmax
-    ob("R-lag", "largest lag used is computed", d.is_const() and d.const() >= 0, f"max k = {kmax!r}, lags computed = {nlags!r}", f"{kmax!r}/{nlags!r}", lc, cfg)
-    ob("R-lag", "smallest lag used is >= 0", kmin.is_const() and kmin.const() >= 0, f"min k = {kmin!r}", repr(kmin), lc, cfg)
+def seqdom_psubs(p_, name, val):
+    from ..seqdom import psubs
+    return psubs(p_, name, val)
 
 
 M = "functions.ssi"
